@@ -1069,7 +1069,9 @@ class ge_polyhedron(variable_ndarray):
                 array([105])
         """
         bnds = self.column_bounds()
-        return numpy.array(numpy.prod((self.A != 0)*(bnds[1]-bnds[0]+1) + (self.A == 0)*1, axis=1))
+        # exact counts: with variables of the default integer range the product passes 64 bits from four columns on
+        counts = numpy.prod(((self.A != 0)*(bnds[1]-bnds[0]+1) + (self.A == 0)*1).astype(object), axis=1)
+        return numpy.array(counts, dtype=numpy.int64 if all(map(lambda count: count < 2**63, counts)) else object)
 
     def tighten_column_bounds(self) -> "integer_ndarray":
         
